@@ -2883,3 +2883,75 @@ package sftp
 //@   property C18, C06, C01
 //@   requires p != nil && int(p.Length) <= len(p.Data) && len(p.Data) <= 0x7fffffff
 //@   ensures result1 == nil && len(result0) == len(old(p.Data)) + 13
+
+// ---------------------------------------------------------------------------
+// the in-memory example handler (request-example.go)
+
+// The reference lister of the package (used by the in-memory handler and by handlers written after it): it honours
+// the ListerAt contract exactly: the entries from offset on, as many as fit, each once and in order; io.EOF exactly when
+// the list is exhausted by this call.
+//@ func (listerat).ListAt
+//@   property C16
+//@   results n, err
+//@   requires offset >= 0
+//@   ensures offset >= len(f) ==> n == 0 && err == io.EOF
+//@   ensures offset < len(f) ==> n == min(len(ls), len(f) - int(offset))
+//@   ensures offset < len(f) ==> (err == io.EOF <==> n < len(ls))
+//@   ensures err == nil || err == io.EOF
+//@   ensures forall(k, 0 <= k && k < n ==> ls[k] == old(f[int(offset) + k]))
+
+//@ ghost var pd string
+//@ ghost var rnName string
+
+// The in-memory example handler (request-example.go). Its file table holds no nil entries (nothing stores one).
+//@ pred rootOK(r *root) = r != nil && r.rootFile != nil && r.files != nil && forall(k, string, haskey(r.files, k) ==> r.files[k] != nil)
+
+//@ func (*root).lfetch
+//@   property C16
+//@   results file, err
+//@   requires rootOK(fs)
+//@   ensures rootOK(fs)
+//@   ensures err == nil ==> file != nil
+//@   ensures err == nil || err == os.ErrNotExist
+//@   ensures err != nil ==> file == nil
+
+//@ func (*root).fetch
+//@   property C16
+//@   results file, err
+//@   requires rootOK(fs)
+//@   loop 1 invariant file != nil && rootOK(fs)
+//@   ensures rootOK(fs)
+//@   ensures err == nil ==> file != nil && file.symlink == ""
+//@   ensures err != nil ==> file == nil
+
+//@ func (*root).canonName
+//@   property C16
+//@   results name, err
+//@   requires rootOK(fs)
+//@   ensures rootOK(fs)
+//@   assert before call (*root).fetch#1: arg1 == dirname
+
+//@ func (*root).rmdir
+//@   property C16
+//@   requires rootOK(fs)
+//@   loop 1 invariant rootOK(fs)
+//@   ensures rootOK(fs)
+
+// A directory's listing consists of the entries whose parent is the directory's own (resolved) name, whatever name
+// the request used to reach it.
+//@ func (*root).readdir
+//@   property C16
+//@   requires rootOK(fs)
+//@   update after call path.Dir#1: ghost.pd = ret
+//@   assert before call path.Dir#1: arg0 == name
+//@   assert before call append#1: ghost.pd == dir.name
+//@   assert before call (*root).fetch#1: arg1 == pathname
+
+// Renaming a directory re-keys exactly the entries below it: those whose name starts with the directory's name
+// followed by a slash (not every name the directory's name is a prefix of).
+//@ func (*root).rename
+//@   property C16
+//@   requires rootOK(fs)
+//@   loop 1 invariant rootOK(fs) && file != nil
+//@   update after call (*root).lfetch#1: ghost.rnName = ret0.name
+//@   assert before call strings.HasPrefix#2: arg0 == name && len(arg1) == len(ghost.rnName) + 1 && arg1[len(arg1) - 1] == '/'
